@@ -34,7 +34,8 @@ import (
 // harness that presents crafted certificate chains when it dials an honest listener:
 // "valid" (a correct chain for F's own key, control), "copied-extension" (the victim's
 // signed-key extension placed on F's certificate key), "no-extension", "corrupt-asn1",
-// "wrong-signer" (extension names the victim's key but is signed by F), "two-certs".
+// "wrong-signer" (extension names the victim's key but is signed by F), "two-certs",
+// "not-self-signed" (a correct binding for F's own key on a certificate signed by another key).
 // Other operations: honest dials through the controller (DialPeerAddr) with the address
 // rebinding fault (an address served by B now, by C later), and direct
 // Transport.HandleConn(dial|listen) calls on private datagram pairs (the path WebRTC and
@@ -75,7 +76,7 @@ func init() {
 		Cfg:        dsim.Config{MaxChaosSteps: 500, MaxStableSteps: 30000, Horizon: 2 * time.Minute},
 		Real:       []string{"crypto/tls (p2ptls): Identity, ConfigForPeer, PubKeyFromCertChain, signed-key extension", "transport/common/quic: DialSession, ListenSession, HandleConn, HandleSession, NewLink/DetermineSessionIdentity", "transport/common/pconn.Transport listener and dialer", "transport/controller.Controller", "quic-go v0.59 and crypto/tls handshakes"},
 		Stub:       []string{"net.PacketConn endpoints on the simulator's datagram network", "the forger is a harness-built quic-go client with crafted certificates", "websocket and WebRTC front-ends are not run; their shared HandleConn path is"},
-		FaultKinds: []string{"fault:forged-copied-extension", "fault:forged-no-extension", "fault:forged-corrupt-asn1", "fault:forged-wrong-signer", "fault:forged-two-certs", "fault:expected-peer-wrong", "fault:address-rebind", "fault:packet-loss", "fault:packet-dup", "fault:packet-reorder", "fault:packet-corrupt", "fault:clock-jump"},
+		FaultKinds: []string{"fault:forged-copied-extension", "fault:forged-no-extension", "fault:forged-corrupt-asn1", "fault:forged-wrong-signer", "fault:forged-two-certs", "fault:forged-not-self-signed", "fault:expected-peer-wrong", "fault:address-rebind", "fault:packet-loss", "fault:packet-dup", "fault:packet-reorder", "fault:packet-corrupt", "fault:clock-jump"},
 	})
 }
 
@@ -186,7 +187,15 @@ func (w *c03World) forgedCert(kind string, victim, forger *sig.Party) tls.Certif
 		ext, _ := p2ptls.GenerateSignedExtension(forger.Priv, certKey.Public())
 		tmpl.ExtraExtensions = append(tmpl.ExtraExtensions, ext)
 	}
-	der, err := x509.CreateCertificate(rand.Reader, tmpl, tmpl, certKey.Public(), certKey)
+	signer := certKey
+	if kind == "not-self-signed" {
+		// a correct key binding for F's own identity, but the certificate is signed by some
+		// other key (issuer and subject names equal): not a self-signed certificate
+		ext, _ := p2ptls.GenerateSignedExtension(forger.Priv, certKey.Public())
+		tmpl.ExtraExtensions = append(tmpl.ExtraExtensions, ext)
+		signer, _ = ecdsa.GenerateKey(elliptic.P256(), rand.Reader)
+	}
+	der, err := x509.CreateCertificate(rand.Reader, tmpl, tmpl, certKey.Public(), signer)
 	if err != nil {
 		panic(err)
 	}
@@ -197,7 +206,7 @@ func (w *c03World) forgedCert(kind string, victim, forger *sig.Party) tls.Certif
 	return tls.Certificate{Certificate: chain, PrivateKey: certKey}
 }
 
-var c03ForgeKinds = []string{"valid", "copied-extension", "no-extension", "corrupt-asn1", "wrong-signer", "two-certs"}
+var c03ForgeKinds = []string{"valid", "copied-extension", "no-extension", "corrupt-asn1", "wrong-signer", "two-certs", "not-self-signed"}
 
 func (w *c03World) forge(victimNode string) {
 	s := w.s
